@@ -440,11 +440,55 @@ def r02_5(run):
     run.count("bitwise-not sites in op methods", n)
 
 
+DEAD_STATE_OK = {
+    ("BatchNorm", "var"): "diagnostic copy; backward uses self.x_norm / self.std-free formulation",
+    ("BatchNorm", "mean"): "diagnostic copy",
+    ("BatchNorm", "beta"): "d(out)/d(beta) does not depend on beta",
+    ("Sequential", "out_shape"): "recorded for subclasses; none needs it today",
+    ("Sequential", "initial"): "forwarded to the kernel only; no op differentiates through `initial`",
+}
+
+
+def r02_6(run):
+    """an option or cached array recorded on self by a forward pass must have a reader (otherwise the backward pass cannot be using it)"""
+    ops = run.project.operation_classes() + [run.project.cls(f"{OB}.Operation")]
+    n = 0
+    for c in ops:
+        m = c.methods.get("__call__")
+        if m is None:
+            continue
+        assigned = {x.attr for x in own_nodes(m.node) if isinstance(x, ast.Attribute) and isinstance(x.ctx, ast.Store) and norm(x.value) == "self"}
+        assigned.discard("variables")
+        if not assigned:
+            continue
+        readers = set()
+        cone = [k for k in ops if k.is_subclass_of(c)]
+        for k in set(cone) | set(c.mro()):
+            for mm in k.methods.values():
+                if mm.qualname == m.qualname:
+                    continue
+                for x in own_nodes(mm.node):
+                    if isinstance(x, ast.Attribute) and isinstance(x.ctx, ast.Load) and norm(x.value) == "self":
+                        readers.add(x.attr)
+        # external readers (wrappers reading op state through `.creator`)
+        for a in sorted(assigned):
+            n += 1
+            if (c.name, a) in DEAD_STATE_OK:
+                run.ob("R02.6", loc(m, m.node), m.short, f"state self.{a} recorded by the forward pass", True, "exempt: " + DEAD_STATE_OK[(c.name, a)], nontrivial=False)
+                continue
+            ok = a in readers
+            run.ob("R02.6", loc(m, m.node), m.short, f"state self.{a} recorded by the forward pass has a reader", ok,
+                   "read by backward/backward_var (of this class or a subclass)" if ok else
+                   f"self.{a} is recorded but never read: the backward pass cannot be differentiating with respect to the option/cache the forward pass used")
+    run.count("recorded state attributes", n)
+
+
 def check(run):
     run.rule("R02.1", "derivative-table agreement in the term domain: for every closed-form op and operand k, the symbolic term of "
              "backward_var|index=k equals g * d(forward term)/dx_k at exact sample points of the kernel's domain (and simplifies to 0 where "
              "sympy can show it); documented conventions at non-differentiable points", floor=35)
     run.rule("R02.2", "every backward_var is (abstractly) homogeneous-linear in grad (linearity domain)", floor=60)
+    run.rule("R02.6", "every option/cache a forward pass records on self is read by some backward method (5 reasoned exemptions)", floor=60)
     run.rule("R02.5", "`~mask` in op methods acts on proven-boolean values", floor=2)
     run.rule("R02.3", "backward_var|index=k returns a value for every k < arity", floor=90)
     run.rule("R02.4", "state read by backward/backward_var is definitely assigned by __call__ (tracking on) / __init__ / class body / wrapper; "
@@ -455,4 +499,5 @@ def check(run):
     r02_3(run)
     r02_4(run)
     r02_5(run)
+    r02_6(run)
     run.assume("term domain: NumPy elementwise functions are identified with their mathematical definitions on the reals (table in sa/terms.py)")
